@@ -324,6 +324,7 @@ func cmdCheck(args []string) {
 			defer os.RemoveAll(*outDir)
 		}
 	}
+	oracleDir = filepath.Join(*verif, "oracles")
 	replayRoot = filepath.Join(*outDir, "replays")
 	os.RemoveAll(filepath.Join(replayRoot, pd.ID)) // replay files of earlier runs are stale
 	res := evaluate(p, pd, encs, lists, tier, seed, stats, opts)
